@@ -95,4 +95,70 @@ theorem lookupVar_filter_of_ne {vs : Vars} {P : Str × Str → Bool} {n : Str}
         simp only [hk, decide_false]
         exact ih'
 
+theorem mem_free {b l : List Str} {n : Str} : n ∈ free b l ↔ n ∈ l ∧ n ∉ b := by
+  simp [free]
+
+theorem readsContext_of_mem_undeclared :
+    ∀ (full b : List Str) (l : List Stmt) (n : Str), n ∈ undeclared full b l → ReadsContext full b l n := by
+  intro full b l
+  fun_induction undeclared full b l with
+  | case1 full b => intro n h; simp at h
+  | case2 full b x rest ih =>
+    intro n h
+    rw [List.mem_append] at h
+    rcases h with h | h
+    · obtain ⟨h1, h2⟩ := mem_free.mp h
+      simp only [List.mem_singleton] at h1
+      subst h1
+      exact .read h2
+    · exact .later (s := .read x) (ih n h)
+  | case3 full b x rhs rest ih =>
+    intro n h
+    rw [List.mem_append] at h
+    rcases h with h | h
+    · obtain ⟨h1, h2⟩ := mem_free.mp h
+      exact .setRhs h1 h2
+    · exact .later (s := .set x rhs) (ih n h)
+  | case4 full b v it body rest ih1 ih2 =>
+    intro n h
+    rw [List.mem_append, List.mem_append] at h
+    rcases h with (h | h) | h
+    · obtain ⟨h1, h2⟩ := mem_free.mp h
+      exact .forIter h1 h2
+    · exact .forBody (ih1 n h)
+    · exact .later (s := .forLoop v it body) (ih2 n h)
+  | case5 full b name args body rest ih1 ih2 =>
+    intro n h
+    rw [List.mem_append] at h
+    rcases h with h | h
+    · exact .macroBody (ih1 n h)
+    · exact .later (s := .macro name args body) (ih2 n h)
+  | case6 full b x rhs body rest ih1 ih2 =>
+    intro n h
+    rw [List.mem_append, List.mem_append] at h
+    rcases h with (h | h) | h
+    · obtain ⟨h1, h2⟩ := mem_free.mp h
+      exact .withRhs h1 h2
+    · exact .withBody (ih1 n h)
+    · exact .later (s := .withBlock x rhs body) (ih2 n h)
+  | case7 full b x rest ih =>
+    intro n h
+    exact .later (s := .importAs x) (ih n h)
+
+theorem mem_undeclared_of_readsContext {full b : List Str} {l : List Stmt} {n : Str}
+    (h : ReadsContext full b l n) : n ∈ undeclared full b l := by
+  induction h with
+  | read hb => simp [undeclared, free, hb]
+  | setRhs h1 h2 => simp [undeclared, free, h1, h2]
+  | forIter h1 h2 => simp [undeclared, free, h1, h2]
+  | forBody _ ih => simp [undeclared, ih]
+  | macroBody _ ih => simp [undeclared, ih]
+  | withRhs h1 h2 => simp [undeclared, free, h1, h2]
+  | withBody _ ih => simp [undeclared, ih]
+  | @later full b s rest n _ ih =>
+    cases s <;> simp only [undeclared, List.mem_append] <;> simp only [bindsAfter, List.nil_append, List.cons_append] at ih <;>
+      first
+        | exact Or.inr ih
+        | exact ih
+
 end TrackTemplate
